@@ -146,3 +146,84 @@ func FuzzKeyStoreBytes(f *testing.F) {
 		}
 	})
 }
+
+var (
+	fuzzRemoteOnce  sync.Once
+	fuzzRemoteWorld *vkit.World
+	fuzzRemoteErr   error
+	fuzzRemoteToken string
+)
+
+var remoteTargets = []string{"jwt", "jwtmeta", "intro", "gen", "remote", "ctx", "cc"}
+
+// FuzzRemoteResponseBytes: byte-level mutation of what the remote endpoints of the mechanisms answer (key sets,
+// introspection results, server metadata, identity information, authorization and contextualizer payloads, token
+// responses). Oracle as in TestHostileRemoteResponsesYieldErrorResponses.
+func FuzzRemoteResponseBytes(f *testing.F) {
+	for i, b := range hostileBodies {
+		f.Add([]byte(b), uint8(i%len(remoteTargets)), uint8(0), uint8(i%3))
+	}
+
+	f.Add(vkit.JWKSJSON([]vkit.JWK{{Kid: "k1", Alg: "ES256", Use: "sig", Pub: &sigKey.PublicKey}}), uint8(0), uint8(0), uint8(0))
+	f.Add([]byte(`{"active":true,"sub":"u","iss":"x","exp":99999999999,"scope":"a b","aud":["x"]}`), uint8(2), uint8(0), uint8(0))
+	f.Add([]byte(`{"issuer":"http://127.0.0.1","jwks_uri":"http://127.0.0.1/jwks","introspection_endpoint":"http://127.0.0.1/i"}`), uint8(1), uint8(0), uint8(0))
+	f.Add([]byte(`{"id":"u","active":true,"exp":99999999999,"iat":1,"nbf":1}`), uint8(3), uint8(0), uint8(0))
+	f.Add([]byte(`{"allowed":true}`), uint8(4), uint8(0), uint8(0))
+	f.Add([]byte(`a=b&c=d`), uint8(5), uint8(0), uint8(2))
+	f.Add([]byte(`{"access_token":"t","token_type":"Bearer","expires_in":3600}`), uint8(6), uint8(0), uint8(0))
+
+	statuses := []int{200, 200, 201, 204, 400, 500}
+	cts := []string{"application/json", "text/plain", "application/x-www-form-urlencoded", "application/yaml", ""}
+
+	f.Fuzz(func(t *testing.T, body []byte, which, st, ctIdx uint8) {
+		fuzzRemoteOnce.Do(func() {
+			fuzzRemoteWorld, fuzzRemoteErr = remoteWorld()
+			fuzzRemoteToken, _ = vkit.MintJWT(map[string]any{"alg": "ES256", "kid": "k1"}, map[string]any{"iss": remote.URL(), "sub": "u", "exp": 99999999999}, sigKey)
+		})
+
+		if fuzzRemoteErr != nil {
+			t.Fatalf("harness: %v", fuzzRemoteErr)
+		}
+
+		w := fuzzRemoteWorld
+		target := remoteTargets[int(which)%len(remoteTargets)]
+		status := statuses[int(st)%len(statuses)]
+		ct := cts[int(ctIdx)%len(cts)]
+
+		remote.Set(func(vkit.Call) vkit.Reply {
+			hdr := map[string]string{}
+			if ct != "" {
+				hdr["Content-Type"] = ct
+			}
+
+			return vkit.Reply{Status: status, Header: hdr, Body: body}
+		})
+
+		vkit.Pending("remote response for %s: status %d, content type %q, body %q", target, status, ct, body)
+
+		var resp vkit.Resp
+
+		perr := guarded(func() {
+			resp, _ = w.Send(vkit.EntryDecision, vkit.LogicalRequest{Method: "POST", Host: "x", RawPath: "/" + target,
+				Headers: []vkit.HeaderKV{{Name: "X-Session", Value: "s"}, {Name: "Authorization", Value: "Bearer " + fuzzRemoteToken}}}, nil)
+		})
+
+		vkit.S.Eval()
+		vkit.S.Label("fuzz.remote.mechanism=" + target)
+
+		sum := sha256.Sum256(body)
+		vkit.S.NonTrivial("fuzz-remote|"+target+"|"+hex.EncodeToString(sum[:8]), map[string]any{"fuzzed_remote_response": string(body[:min(len(body), 200)]), "mechanism": target, "answer": resp.Status})
+
+		if perr != nil {
+			t.Fatalf("a response of the remote endpoint crashed request processing: %v\nmechanism=%s status=%d content-type=%q body=%q", perr, target, status, ct, body)
+		}
+
+		if resp.Status < 200 || resp.Status > 599 {
+			t.Fatalf("no proper answer (status %d) for mechanism=%s remote status=%d body=%q", resp.Status, target, status, body)
+		}
+
+		if ok, _ := w.Send(vkit.EntryDecision, vkit.LogicalRequest{Method: "GET", Host: "x", RawPath: "/ok"}, nil); ok.Status != 200 {
+			t.Fatalf("service does not serve valid requests any more (status %d)", ok.Status)
+		}
+	})
+}
